@@ -127,8 +127,8 @@ def _history_chunk(params, lo, hi):
         ent = [alpha[d] for d in digits_(b, len(alpha), rows * cols)]
         matrix = [ent[i * cols : (i + 1) * cols] for i in range(rows)]
         try:
-            solve_hungarian([list(x) for x in first], minimize=min_first)
-        except Exception:  # noqa: BLE001
+            gcall(lambda: solve_hungarian([list(x) for x in first], minimize=min_first))
+        except Exception:  # noqa: BLE001 - the first call is judged where it is enumerated on its own
             pass
         errs, label, nontrivial = judge(matrix, minimize)
         r["n"] += 1
